@@ -8,6 +8,14 @@ Oracle: the same source is executed by CPython in this child; ``inspect.signatur
 ``typing.get_overloads`` and ``property.fget/fset/fdel`` give the expected view.  Default and
 annotation expressions are compared by *value*: ``eval(str(griffe_expr))`` against the object
 CPython stored.  M-CON (icontract) post-condition on every ``get_parameters`` call.
+
+``rich`` workload (widened after seeding round 9): parameter defaults, parameter annotations, return annotations and lambda
+values are drawn from the *full* expression grammar of ``vf.gen.exprs`` (C03's generator: ``D_clean`` and ``D_hostile``), from
+typing-shaped annotations with quoted parts, and from 3.12 signature syntax (PEP 695 type parameters on functions and classes,
+PEP 646 ``*args: *Ts`` / ``tuple[*Ts]``, displays made of unpackings, walrus, lambdas with their own defaults, PEP 701
+f-strings).  Reference: the node CPython's parser produced for the definition (tree equality up to parentheses and literal
+spelling, as in C03) and ``inspect.signature`` of the executed definition (names, order, kinds, has-default, required-ness) with
+every free name bound to an object that accepts every operation.
 """
 from __future__ import annotations
 
@@ -17,6 +25,7 @@ import itertools
 import random
 import typing
 
+from vf.core.rec import known_findings
 from vf.core.util import case_watchdog, visit_source
 
 PROP = "C02"
@@ -26,21 +35,42 @@ RULE = ("all legal parameter lists of <=4 parameters over kinds {pos-only, norma
         "present/absent (Python's default-ordering rule) x annotated or not, enumerated exhaustively, each rendered in 6 "
         "contexts (function, method, async def, nested-class method, lambda value, lambda default), with and without "
         "'from __future__ import annotations'; seeded samples up to 9 parameters; overload groups (k overloads, "
-        "interleaved, in classes, under TYPE_CHECKING) and property getter/setter/deleter groups in every order. "
+        "interleaved, in classes, under TYPE_CHECKING) and property getter/setter/deleter groups in every order; 'rich' signatures "
+        "(0-7 parameters, multi-line) whose defaults / annotations / return annotations / lambda values are random trees of the "
+        "full expression grammar (D_clean and D_hostile of vf.gen.exprs), typing-shaped annotations with quoted parts, PEP 646 "
+        "star forms, displays of unpackings, walrus, lambdas with own defaults, PEP 701 f-strings, on functions / async functions "
+        "/ methods of (generic, PEP 695) classes / nested-class methods / lambda values. "
         "distinct = digest of the source; non-trivial = >=2 parameters of >=2 kinds (or an overload/property group)")
 LEVEL_TEXT = ("Each generated definition is executed by CPython and statically visited by Griffe; names, order, kinds, "
               "has-default, required-ness, default values, annotations and return annotations are compared parameter by "
               "parameter, overload lists against typing.get_overloads in order, property setters/deleters against "
               "fset/fdel. Exhaustive for <=4 parameters; sampled above. A contract on get_parameters is evaluated on "
-              "every call.")
+              "every call. In the rich workload every reported default / annotation / return expression must be valid Python and "
+              "parse to the tree CPython parsed from the definition; names, kinds, has-default and required-ness must equal "
+              "inspect.signature of the executed definition (CPython's ast.arguments when the definition cannot be executed).")
 LEVEL_NOTE = ("trusted: CPython inspect.signature(eval_str=True), typing.get_overloads, property objects; default/annotation "
-              "expressions drawn from simple atoms so rendering defects (C03) cannot surface here")
+              "expressions of the enumerated workloads drawn from simple atoms; rich workload: CPython's parser (ast.parse) is the "
+              "reference for expressions; in its hostile leg an expression whose mis-rendering is explained *entirely* by "
+              "mechanisms listed with status 'known' under C03 (located and repaired by C03's own classifier) is counted and not "
+              "judged here - in the clean leg nothing is excused")
 TECHNIQUE = "runtime monitoring: differential oracle against CPython introspection + icontract post-condition on get_parameters"
 REQUIRED_COUNTERS = ["signatures_compared", "get_parameters_contract_evals", "overload_groups_compared",
                      "property_groups_compared", "lambda_signatures_compared", "defaults_compared_by_value",
-                     "annotations_compared_by_value"]
+                     "annotations_compared_by_value",
+                     "rich_signatures_compared", "rich_signatures_confirmed_by_inspect", "rich_defaults_parse_back_equal",
+                     "rich_annotations_parse_back_equal", "rich_returns_parse_back_equal", "rich_lambda_structures_compared",
+                     "rich_star_only_display_judged", "rich_pep646_star_annotation_judged", "rich_type_param_signatures_compared",
+                     "rich_walrus_judged", "rich_lambda_with_own_defaults_judged", "rich_clean_domain_cases",
+                     "rich_hostile_domain_cases"]
 EXHAUSTIVE = {"quick": True, "thorough": True}
-ASSUMPTIONS = ["exhaustive over parameter lists of <=4 parameters only; larger lists, overload and property groups are sampled/catalogued"]
+ASSUMPTIONS = ["exhaustive over parameter lists of <=4 parameters only; larger lists, overload and property groups are sampled/catalogued",
+               "rich workload: string annotations follow C03's rule (parsed when postponed evaluation is off, outside Literal[...]); "
+               "strings in positions the statement is silent about (nested quoting, lambda defaults, f-string fields, left of '[') "
+               "are only judged with the future import on",
+               "rich workload, hostile leg: a mis-rendered expression explained entirely by C03 findings of status 'known' is not "
+               "judged by C02 (has-default / required-ness / names / kinds still are)",
+               "rich workload: a definition CPython cannot execute with universal dummy operands (TypeError in a default built from "
+               "constants only, unbounded integer power) is judged against CPython's ast.arguments instead of inspect.signature"]
 
 PO, PK, VP, KO, VK = 0, 1, 2, 3, 4
 KIND_NAMES = {PO: "positional-only", PK: "positional or keyword", VP: "variadic positional", KO: "keyword-only", VK: "variadic keyword"}
@@ -112,6 +142,10 @@ def shards(tier: str, seed: int) -> list[dict]:
     # one interpreter, all workloads interleaved: what an earlier definition (an awaitable property, a decorated async def,
     # an overload group) leaves behind in the agent must not change how a later one is read
     out += [{"kind": "mixed", "count": 150 if tier == "quick" else 4000} for _ in range(2 if tier == "quick" else 4)]
+    # defaults / annotations / returns from the full expression grammar and 3.12 signature syntax; clean and hostile legs
+    for i in range(6 if tier == "quick" else 12):
+        out.append({"kind": "rich", "domain": "clean" if i % 2 == 0 else "hostile", "count": 150 if tier == "quick" else 3500,
+                    "depth": 3 if tier == "quick" else 4})
     if tier == "thorough":
         out += [{"kind": "exhaustive5", "part": p, "parts": 8} for p in range(8)]
     return out
@@ -465,6 +499,713 @@ def run_property_case(rec, rng) -> None:  # noqa: ANN001
         rec.ok(case, nontrivial=True, tags=("property",))
 
 
+# -- rich workload: expressions of the full grammar and 3.12 syntax in signatures ---------------------------------
+class _Universal:
+    """Operand that accepts every operation: lets CPython execute a definition whose defaults use arbitrary free names."""
+
+    def __getattr__(self, name):  # noqa: ANN001, ANN204
+        if name.startswith("__") and name.endswith("__"):
+            raise AttributeError(name)
+        return self
+
+    def _same(self, *a, **k):  # noqa: ANN002, ANN003, ANN202
+        return self
+
+    __call__ = __getitem__ = __neg__ = __pos__ = __invert__ = _same
+    __lt__ = __le__ = __gt__ = __ge__ = __eq__ = __ne__ = _same
+
+    def __iter__(self):  # noqa: ANN204
+        return iter(())
+
+    def keys(self):  # noqa: ANN201
+        return ()
+
+    def __bool__(self) -> bool:
+        return True
+
+    def __hash__(self) -> int:
+        return 1
+
+    def __index__(self) -> int:
+        return 0
+
+    def __format__(self, spec: str) -> str:
+        return "U"
+
+    def __contains__(self, item) -> bool:  # noqa: ANN001
+        return False
+
+
+for _op in ("add", "sub", "mul", "matmul", "truediv", "floordiv", "mod", "pow", "lshift", "rshift", "and", "or", "xor"):
+    setattr(_Universal, f"__{_op}__", _Universal._same)
+    setattr(_Universal, f"__r{_op}__", _Universal._same)
+
+TYPE_ATOMS = ["int", "str", "T", "U", "m.T", "None", "float"]
+
+
+def _c3():  # noqa: ANN202
+    import vf.checks.c03 as c3  # C03's reference side (canon / parse_back / string rule) and its mechanism classifier
+
+    return c3
+
+
+class RichGen:
+    """Source text of signatures whose expressions come from vf.gen.exprs and from 3.12 signature syntax."""
+
+    def __init__(self, rng: random.Random, domain: str, depth: int) -> None:
+        from vf.gen.exprs import ExprGen, StringAnnGen
+
+        self.rng = rng
+        self.clean = domain == "clean"
+        self.depth = depth
+        # triggers of C03 findings whose status became `fixed` re-enter the clean domain (as in C03 itself)
+        fixed = frozenset(fid for fid, f in known_findings().items()
+                          if f.get("property") == "C03" and str(f.get("status", "")).startswith("fixed"))
+        self.gen = ExprGen(rng, clean=self.clean, fixed=fixed)
+        self.sgen = StringAnnGen(rng, clean=self.clean)
+
+    # .. building blocks (trees; the text always comes from ast.unparse or is re-read by CPython) ..................
+    def atom(self) -> ast.expr:
+        return self.gen.sub(1, 2, False)
+
+    def star_display(self) -> ast.expr:
+        """Display made (mostly) of unpackings: ``(*a,)``, ``(*a, *b)``, ``[*a]``, ``{*a, 1}``, ``(0, *a)``."""
+        r = self.rng
+        n = r.choice([1, 1, 1, 2, 2, 3])
+        elts: list[ast.expr] = [ast.Starred(self.atom(), ast.Load()) if r.random() < 0.7 else self.gen.leaf() for _ in range(n)]
+        cls = r.choice([ast.Tuple, ast.Tuple, ast.Tuple, ast.List, ast.Set])
+        return cls(elts) if cls is ast.Set else cls(elts, ast.Load())
+
+    def lambda_with_defaults(self) -> ast.expr:
+        for _ in range(8):
+            lam = self.gen.g_Lambda(2, False)
+            if lam.args.defaults or any(d is not None for d in lam.args.kw_defaults):  # type: ignore[attr-defined]
+                return lam
+        return lam
+
+    def type_atom(self) -> ast.expr:
+        from vf.gen.exprs import _dotted
+
+        return _dotted(self.rng.choice(TYPE_ATOMS))
+
+    def unpacked(self) -> ast.Starred:
+        """``*Ts`` / ``*tuple[int, ...]`` / ``*tuple[int, *Ts]``."""
+        r = self.rng
+        if r.random() < 0.55:
+            return ast.Starred(ast.Name(r.choice(["Ts", "Ts", "Shape", "T"]), ast.Load()), ast.Load())
+        inner: list[ast.expr] = [self.type_atom() for _ in range(r.randint(1, 2))]
+        inner.append(ast.Constant(...) if r.random() < 0.5 else ast.Starred(ast.Name("Ts", ast.Load()), ast.Load()))
+        return ast.Starred(ast.Subscript(ast.Name("tuple", ast.Load()), ast.Tuple(inner, ast.Load()), ast.Load()), ast.Load())
+
+    def pep646(self, vararg: bool) -> ast.expr:
+        """``tuple[*Ts]``, ``tuple[int, *Ts]``, ``Callable[[*Ts], T]``, ``Array[*Shape, int]``; for ``*args`` also a bare ``*Ts``."""
+        r = self.rng
+        if vararg and r.random() < 0.6:
+            return self.unpacked()
+        n = r.choice([1, 1, 2, 3])
+        elts: list[ast.expr] = [self.unpacked() if r.random() < 0.6 else self.type_atom() for _ in range(n)]
+        if not any(isinstance(e, ast.Starred) for e in elts):
+            elts[r.randrange(n)] = self.unpacked()
+        head = r.choice(["tuple", "tuple", "Generic", "Array", "t.Callable"])
+        if head == "t.Callable":
+            sl: ast.expr = ast.Tuple([ast.List(elts, ast.Load()), self.type_atom()], ast.Load())
+        else:
+            sl = ast.Tuple(elts, ast.Load())
+        from vf.gen.exprs import _dotted
+
+        node: ast.expr = ast.Subscript(_dotted(head), sl, ast.Load())
+        if r.random() < 0.2:
+            node = ast.BinOp(node, ast.BitOr(), ast.Constant(None))
+        return node
+
+    PEP701 = ['f"{%s["k"]}"', 'f"{f"{%s}"}"', "f'{%s!r:>{n}}'", "f'{%s:{'>'}{10}}'", 'f"{"\\n".join(%s)}"', 'f"{%s + "x"!s}"',
+              "f'''{%s['k']} {f'{f\"{x}\"}'}'''", 'f"{%s=}"']
+
+    def pep701(self) -> str:
+        """f-strings only 3.12 accepts (reused quotes, backslashes and nesting in replacement fields)."""
+        return self.rng.choice(self.PEP701) % ast.unparse(self.gen.name())
+
+    def text(self, node: ast.expr) -> str | None:
+        try:
+            txt = ast.unparse(node)
+        except Exception:  # noqa: BLE001
+            return None
+        if self.rng.random() < 0.25 and not isinstance(node, ast.Starred):
+            txt = "(" + txt + ")"  # redundant parentheses are not part of the expression
+        return txt
+
+    # .. draws ....................................................................................................
+    def default(self) -> str | None:
+        r = self.rng
+        k = r.random()
+        if k < 0.12:
+            return self.text(self.star_display())
+        if k < 0.17:
+            return self.text(self.lambda_with_defaults())
+        if k < 0.21:
+            return self.text(self.gen.g_NamedExpr(r.randint(1, 2), False))
+        if k < 0.25 and not self.clean:
+            return self.pep701()
+        return self.text(self.gen.expr(r.randint(1, self.depth), 0, False))
+
+    def annotation(self, vararg: bool = False) -> str | None:
+        r = self.rng
+        k = r.random()
+        if k < 0.25 or (vararg and k < 0.5):
+            return self.text(self.pep646(vararg))
+        if k < 0.55:
+            return self.text(self.sgen.typ(r.randint(1, 3)))
+        if k < 0.62:
+            return self.text(self.star_display())
+        return self.text(self.gen.expr(r.randint(1, self.depth), 0, False))
+
+    def type_params(self) -> str:
+        r = self.rng
+        if r.random() < 0.6:
+            return ""
+        items = []
+        if r.random() < 0.7:
+            items.append(r.choice(["T", "T: int", "T: (int, str)", "T: m.T | None", "T: 'U'"]))
+        if r.random() < 0.3:
+            items.append("U")
+        if r.random() < 0.5:
+            items.append(r.choice(["*Ts", "*Shape"]))
+        if r.random() < 0.3:
+            items.append("**P")
+        return "[" + ", ".join(items) + "]" if items else ""
+
+    # .. one definition ...........................................................................................
+    def kinds(self, lo: int, hi: int):  # noqa: ANN201
+        r = self.rng
+        n = r.randint(lo, hi)
+        for _try in range(200):
+            kinds = tuple(sorted(r.choice([PO, PK, PK, KO, KO, VP, VK]) for _ in range(n)))
+            if kinds.count(VP) <= 1 and kinds.count(VK) <= 1:
+                break
+        else:
+            kinds = (PK,) * n
+        npos = sum(1 for k in kinds if k in (PO, PK))
+        first_default = r.randint(0, npos)
+        dfl, seenpos = [], 0
+        for k in kinds:
+            if k in (PO, PK):
+                dfl.append(1 if seenpos >= first_default else 0)
+                seenpos += 1
+            else:
+                dfl.append(r.randint(0, 1) if k == KO else 0)
+        return kinds, dfl, [int(r.random() < 0.6) for _ in kinds]
+
+    def valid(self, template: str, expr: str, future: bool) -> bool:
+        """Does CPython accept ``expr`` at this place (yield / await / walrus are refused in several of them)?"""
+        try:
+            compile(("from __future__ import annotations\n" if future else "") + template % expr, "<c02rich>", "exec",
+                    dont_inherit=True)
+        except (SyntaxError, ValueError, RecursionError, MemoryError, OverflowError):
+            return False
+        return True
+
+    def drawn(self, draw, template: str, future: bool) -> str:  # noqa: ANN001
+        import warnings
+
+        with warnings.catch_warnings():
+            warnings.simplefilter("ignore")
+            for _ in range(30):
+                txt = draw()
+                if txt is not None and self.valid(template, txt, future):
+                    return txt
+        return "None"
+
+    def params(self, future: bool, in_class: bool, tp: str, lambda_form: bool = False, first: str | None = None) -> tuple[str, int, int]:
+        kinds, dfl, ann = self.kinds(0, 7) if not lambda_form else self.kinds(0, 5)
+        wrap_a, wrap_b = ("class _K:\n    ", "") if in_class else ("", "")
+        parts = [first] if first else []
+        n = len(kinds)
+        for i, k in enumerate(kinds):
+            name = f"p{i}"
+            if k == KO and VP not in kinds and (i == 0 or kinds[i - 1] != KO):
+                parts.append("*")
+            txt = {VP: "*" + name, VK: "**" + name}.get(k, name)
+            a = None
+            if ann[i] and not lambda_form:
+                star = "*" if k == VP else "**" if k == VK else ""
+                a = self.drawn(lambda k=k: self.annotation(vararg=k == VP), f"{wrap_a}def _v{tp}({star}_p: %s): ...{wrap_b}", future)
+                txt += ": " + a
+            if dfl[i]:
+                tmpl = "_v = lambda _p=%s: 0" if lambda_form else f"{wrap_a}def _v{tp}(_p=%s): ...{wrap_b}"
+                d = self.drawn(self.default, tmpl, future)
+                txt += (" = " if a else "=") + d
+            parts.append(txt)
+            if k == PO and (i + 1 == n or kinds[i + 1] != PO):
+                parts.append("/")
+        sep = ", " if self.rng.random() < 0.7 or lambda_form else ",\n        "
+        return sep.join(parts), len(kinds), len(set(kinds))
+
+    def returns(self, future: bool, in_class: bool, tp: str) -> str:
+        if self.rng.random() < 0.35:
+            return ""
+        wrap_a = "class _K:\n    " if in_class else ""
+        return " -> " + self.drawn(self.annotation, f"{wrap_a}def _v{tp}() -> %s: ...", future)
+
+    def module(self) -> tuple[str, bool]:
+        """(source, non-trivial).  Four definitions and two lambdas, each with its own parameter list."""
+        r = self.rng
+        future = r.random() < 0.6
+        from vf.gen.exprs import PRELUDE as TYPING_PRELUDE  # the imports under which every Literal spelling resolves
+
+        lines = ["from __future__ import annotations"] if future else []
+        lines.append(TYPING_PRELUDE.rstrip("\n"))
+        stats = []
+        tp = self.type_params()
+        p, n, nk = self.params(future, False, tp)
+        stats.append((n, nk))
+        lines.append(f"{r.choice(['def', 'def', 'async def'])} f{tp}({p}){self.returns(future, False, tp)}: ...")
+        ctp = self.type_params()
+        lines.append(f"class C{ctp}:")
+        tp = self.type_params()
+        p, n, nk = self.params(future, True, tp, first="self")
+        stats.append((n, nk))
+        lines.append(f"    {r.choice(['def', 'def', 'async def'])} m{tp}({p}){self.returns(future, True, tp)}: ...")
+        lines.append("    class N:")
+        deco, first = r.choice([("", "self"), ("", "self"), ("@staticmethod", None), ("@classmethod", "cls")])
+        if deco:
+            lines.append("        " + deco)
+        p, n, nk = self.params(future, True, "", first=first)
+        stats.append((n, nk))
+        lines.append(f"        def nm({p}){self.returns(future, True, '')}: ...")
+        p, n, nk = self.params(future, False, "", lambda_form=True)
+        body = self.drawn(lambda: self.text(self.gen.expr(r.randint(0, 2), 0, False)), "_v = lambda: %s", future)
+        lines.append(f"lam = lambda {p}: {body}" if p else f"lam = lambda: {body}")
+        p, n, nk = self.params(future, False, "", lambda_form=True)
+        lines.append(f"def host(cb=lambda {p}: 0, /, *a: {self.drawn(lambda: self.annotation(vararg=True), 'def _v(*_p: %s): ...', future)}): ...")
+        return "\n".join(lines) + "\n", any(n >= 2 and nk >= 2 for n, nk in stats)
+
+
+def ref_params(args: ast.arguments) -> list[tuple]:
+    """CPython's ast.arguments read by the language reference: (name, kind, default node | None, annotation node | None)."""
+    out = []
+    pos = [(a, PO) for a in args.posonlyargs] + [(a, PK) for a in args.args]
+    pad = len(pos) - len(args.defaults)
+    for i, (a, k) in enumerate(pos):
+        out.append((a.arg, k, args.defaults[i - pad] if i >= pad else None, a.annotation))
+    if args.vararg:
+        out.append((args.vararg.arg, VP, None, args.vararg.annotation))
+    for a, d in zip(args.kwonlyargs, args.kw_defaults):
+        out.append((a.arg, KO, d, a.annotation))
+    if args.kwarg:
+        out.append((args.kwarg.arg, VK, None, args.kwarg.annotation))
+    return out
+
+
+def rich_features(rec, tree: ast.AST) -> None:  # noqa: ANN001
+    """Count the input classes an expected tree belongs to (evidence that they are exercised)."""
+    seen = set()
+    for n in ast.walk(tree):
+        if isinstance(n, (ast.Tuple, ast.List, ast.Set)) and n.elts and all(isinstance(e, ast.Starred) for e in n.elts) \
+                and not isinstance(getattr(n, "ctx", None), ast.Store):
+            seen.add("rich_star_only_display_judged")
+            if isinstance(n, ast.Tuple) and len(n.elts) == 1:
+                seen.add("rich_one_element_star_tuple_judged")
+        elif isinstance(n, ast.Subscript) and isinstance(n.slice, ast.Tuple) and any(isinstance(e, ast.Starred) for e in n.slice.elts):
+            seen.add("rich_pep646_star_annotation_judged")
+        elif isinstance(n, ast.NamedExpr):
+            seen.add("rich_walrus_judged")
+        elif isinstance(n, ast.Lambda) and (n.args.defaults or any(d is not None for d in n.args.kw_defaults)):
+            seen.add("rich_lambda_with_own_defaults_judged")
+        elif isinstance(n, ast.FormattedValue) and any(isinstance(x, ast.JoinedStr) for x in ast.walk(n.value)):
+            seen.add("rich_nested_fstring_judged")
+    if isinstance(tree, ast.Starred):
+        seen.add("rich_pep646_star_annotation_judged")
+    for s in seen:
+        rec.count(s)
+
+
+def c03_known_explains(expected: ast.expr, text: str, rec) -> list[str] | None:  # noqa: ANN001
+    """Ids of C03 findings (status ``known``) that explain *all* of the difference between ``text`` and ``expected``.
+
+    C03's classifier locates the minimal failing subtree, repairs the mechanism's structural trigger on a copy and only matches
+    when the repaired subtree renders correctly, so a second defect in the same expression stays unexplained (-> None).
+    """
+    c3 = _c3()
+    c3.host_module()
+    try:
+        alone = c3.standalone(expected, rec, as_root=True)[1]
+        if alone is None or alone != text:
+            return None  # what is stored in the signature is not what the builder makes of this tree alone
+        ids, rest = c3.explain(expected, rec)
+    except Exception:  # noqa: BLE001
+        return None
+    if rest is not None or not ids:
+        return None
+    kf = known_findings()
+    if all(kf.get(i, {}).get("property") == "C03" and kf.get(i, {}).get("status") == "known" for i in ids):
+        return ids
+    return None
+
+
+def await_in_lambda_default_explains(expected: ast.expr, text: str, rec, domain: str) -> bool:  # noqa: ANN001
+    """The same mechanism one level down: a lambda *inside* the expression has a parameter default holding an ``await``; that
+    default is not built, so the lambda is rendered without it.  Matches only when (a) the reported text is what the builder makes
+    of this very tree, (a') it has fewer ``await`` keywords than the definition, and (b) with those defaults replaced by a plain name the expression renders correctly (in the hostile leg:
+    up to mechanisms listed under C03) - any other defect in the expression stays unexplained."""
+    from _griffe.expressions import get_expression
+
+    c3 = _c3()
+    trial = c3.clone(expected)
+    hit = False
+    for n in ast.walk(trial):
+        if isinstance(n, ast.Lambda):
+            for lst in (n.args.defaults, n.args.kw_defaults):
+                for i, d in enumerate(lst):
+                    if d is not None and c3.contains(d, ast.Await):
+                        lst[i] = ast.Name("__vf_no_await", ast.Load())
+                        hit = True
+    if not hit:
+        return False
+    import re
+
+    in_strings = sum(len(re.findall(r"\bawait\b", n.value)) for n in ast.walk(expected)
+                     if isinstance(n, ast.Constant) and isinstance(n.value, str))
+    n_await = sum(isinstance(n, ast.Await) for n in ast.walk(expected))
+    if len(re.findall(r"\bawait\b", text)) - in_strings >= n_await:
+        return False  # every await of the definition is in the reported text: nothing was dropped
+    try:
+        if str(get_expression(expected, parent=c3.host_module(), parse_strings=False)) != text:
+            return False
+        problem, text2 = c3.standalone(trial, rec, as_root=True)
+    except Exception:  # noqa: BLE001
+        return False
+    if problem is None and text2 is not None:
+        return True
+    return bool(domain == "hostile" and text2 is not None and c03_known_explains(trial, text2, rec))
+
+
+class _DropAwait(ast.NodeTransformer):
+    def visit_Await(self, node: ast.Await):  # noqa: ANN201, N802
+        return self.visit(node.value)
+
+
+def await_rendering_explained(expected: ast.expr, text: str, rec) -> list[str] | None:  # noqa: ANN001
+    """Expressions with ``await`` that *are* reported (never on the pinned tree; after C02-await-expression-not-built is repaired).
+    C03's classifier does not handle the node, so: either text and CPython's own rendering have the same tokens up to parentheses
+    (DESIGN's predicate of C03-grouping), or the expression without its ``await`` keywords is explained by C03 and the reported
+    text without them is what the builder renders for that tree."""
+    import io
+    import tokenize
+
+    def toks(t: str) -> list[str] | None:
+        try:
+            return [k.string for k in tokenize.generate_tokens(io.StringIO(t).readline)
+                    if k.string not in ("(", ")") and k.type not in (tokenize.NEWLINE, tokenize.NL, tokenize.ENDMARKER)]
+        except (tokenize.TokenError, SyntaxError, IndentationError):
+            return None
+
+    kf = known_findings().get("C03-grouping", {})
+    mine = toks(text)
+    if mine is not None and mine == toks(ast.unparse(expected)) and kf.get("status") == "known":
+        return ["C03-grouping"]
+    if "await " in "".join(repr(n.value) for n in ast.walk(expected) if isinstance(n, ast.Constant) and isinstance(n.value, (str, bytes))):
+        return None
+    bare = ast.fix_missing_locations(_DropAwait().visit(_c3().clone(expected)))
+    return c03_known_explains(bare, text.replace("await ", ""), rec)
+
+
+def judge_rich_expr(rec, stored, node: ast.expr, parse_strings: bool, domain: str, where: str, counter: str):  # noqa: ANN001, ANN201
+    """None when the reported expression is valid Python and parses to CPython's tree; else (what, observed, expected, finding)."""
+    c3 = _c3()
+    if parse_strings:
+        info = c3.StringInfo(node)
+        if info.corner or info.nested:
+            rec.count("rich_annotation_not_judged_unspecified_string_position")
+            return None
+    if stored is not None and c3.contains(node, ast.Await):
+        rec.count("rich_await_expression_reported")  # (not built on the pinned tree; parse-back is judged below if it ever is)
+    expected, _n = c3.expected_tree(node, parse_strings)
+    rich_features(rec, expected)
+    want = c3._unparse(expected)
+    if stored is None:
+        return (f"{where}: nothing reported for an expression of the definition", None, want, await_not_built(stored, expected))
+    text = str(stored)
+    try:
+        back = c3.parse_back(text, isinstance(expected, ast.Starred))
+    except (SyntaxError, ValueError, RecursionError, MemoryError) as exc:
+        problem = (f"{where}: reported expression is not valid Python ({type(exc).__name__}: {exc})"[:300], text, want, None)
+    else:
+        if c3.canon(back) == c3.canon(expected):
+            rec.count(counter)
+            return None
+        problem = (f"{where}: reported expression parses to a different tree than the one CPython parsed from the definition", text, want, None)
+    if await_in_lambda_default_explains(expected, text, rec, domain):
+        return problem[:3] + (AWAIT_FINDING,)
+    if domain == "hostile":
+        ids = c03_known_explains(expected, text, rec) if not c3.contains(expected, ast.Await) else await_rendering_explained(expected, text, rec)
+        if ids:
+            rec.count("rich_rendering_defect_listed_under_C03_not_judged")
+            for i in set(ids):
+                rec.count(f"rich_excused:{i}")
+            return None
+    return problem
+
+
+AWAIT_FINDING = "C02-await-expression-not-built"
+
+
+def await_not_built(stored, expected: ast.AST | None) -> str | None:  # noqa: ANN001
+    """Mechanism classifier: *nothing* is reported (None) for an expression whose tree, as CPython reads it, holds an ``await``."""
+    if stored is None and expected is not None and any(isinstance(n, ast.Await) for n in ast.walk(expected)):
+        return AWAIT_FINDING
+    return None
+
+
+def compare_rich_params(rec, out: list, gparams, ref, sig, future, domain, label, lambda_form=False) -> None:  # noqa: ANN001, C901, PLR0912
+    """Parameters reported by Griffe against CPython's (``ref`` from ast.arguments, ``sig`` from inspect).  Problems
+    (what, observed, expected, finding id | None) are appended to ``out``."""
+    if sig is not None:
+        cparams = list(sig.parameters.values())
+        via = [(p.name, INSPECT_KIND[p.kind], p.default is not p.empty) for p in cparams]
+        if via != [(n, k, d is not None) for n, k, d, _a in ref]:
+            raise AssertionError(f"harness: ast.arguments and inspect.signature disagree for {label}: {via}")
+    if [p.name for p in gparams] != [r[0] for r in ref]:
+        out.append((f"{label}: parameter names/order differ", [p.name for p in gparams], [r[0] for r in ref], None))
+        return
+    for gp, (name, kind, dnode, anode) in zip(gparams, ref):
+        if gp.kind is None or gp.kind.value != KIND_NAMES[kind]:
+            out.append((f"{label}: kind of {name} differs", gp.kind and gp.kind.value, KIND_NAMES[kind], None))
+        variadic = kind in (VP, VK)
+        if variadic:
+            if str(gp.default) != ("()" if kind == VP else "{}"):
+                out.append((f"{label}: variadic default of {name}", repr(gp.default), "()/{}", None))
+        elif (gp.default is not None) != (dnode is not None):
+            out.append((f"{label}: has-default of {name} differs (CPython would {'accept' if dnode is not None else 'refuse'} a call "
+                        "that omits it)", repr(gp.default), None if dnode is None else ast.unparse(dnode), await_not_built(gp.default, dnode)))
+        elif not lambda_form and gp.required != (dnode is None and not variadic):
+            out.append((f"{label}: required-ness of {name} differs", gp.required, dnode is None and not variadic, None))
+        if dnode is not None and gp.default is not None:
+            res = judge_rich_expr(rec, gp.default, dnode, False, domain, f"{label}: default of {name}", "rich_defaults_parse_back_equal")
+            if res:
+                out.append(res)
+        if lambda_form:
+            continue
+        if anode is None:
+            if gp.annotation is not None:
+                out.append((f"{label}: annotation reported for {name}, the definition has none", str(gp.annotation), None, None))
+            continue
+        res = judge_rich_expr(rec, gp.annotation, anode, not future, domain, f"{label}: annotation of {name}",
+                              "rich_annotations_parse_back_equal")
+        if res:
+            out.append(res)
+
+
+class _Skeleton(ast.NodeTransformer):
+    """Same parameter lists; defaults replaced by None (lambdas by their skeleton), annotations / bases / decorators dropped."""
+
+    def visit_arguments(self, node: ast.arguments):  # noqa: ANN201, N802
+        def dflt(d):  # noqa: ANN001, ANN202
+            if d is None:
+                return None
+            if isinstance(d, ast.Lambda):
+                return ast.Lambda(self.visit_arguments(d.args), ast.Constant(None))
+            return ast.Constant(None)
+
+        node.defaults = [dflt(d) for d in node.defaults]
+        node.kw_defaults = [dflt(d) for d in node.kw_defaults]
+        for a in node.posonlyargs + node.args + node.kwonlyargs + [x for x in (node.vararg, node.kwarg) if x]:
+            a.annotation = None
+        return node
+
+    def visit_FunctionDef(self, node):  # noqa: ANN001, ANN201, N802
+        node.args = self.visit_arguments(node.args)
+        node.returns = None
+        node.body = [ast.Expr(ast.Constant(...))]
+        node.decorator_list = [d for d in node.decorator_list if isinstance(d, ast.Name) and d.id in ("staticmethod", "classmethod")]
+        return node
+
+    visit_AsyncFunctionDef = visit_FunctionDef  # noqa: N815
+
+    def visit_ClassDef(self, node: ast.ClassDef):  # noqa: ANN201, N802
+        node.bases, node.keywords, node.decorator_list = [], [], []
+        node.body = [self.visit(b) for b in node.body]
+        return node
+
+    def visit_Lambda(self, node: ast.Lambda):  # noqa: ANN201, N802
+        return ast.Lambda(self.visit_arguments(node.args), ast.Constant(None))
+
+
+def risky_to_execute(tree: ast.AST) -> bool:
+    """Integer power / shift / repetition CPython would compute without bound when the definition is executed."""
+    for n in ast.walk(tree):
+        if isinstance(n, ast.BinOp) and isinstance(n.op, (ast.Pow, ast.LShift, ast.Mult)):
+            right_free = not any(isinstance(x, (ast.Name, ast.Lambda)) for x in ast.walk(n.right))
+            left_free = not any(isinstance(x, (ast.Name, ast.Lambda)) for x in ast.walk(n.left))
+            small = isinstance(n.right, ast.Constant) and type(n.right.value) is int and n.right.value < 1000 and \
+                isinstance(n.left, ast.Constant)
+            if right_free and left_free and not small:
+                return True
+    return False
+
+
+def judge_rich_source(rec, src: str, domain: str):  # noqa: ANN001, ANN201, C901, PLR0912, PLR0915
+    """Every def / async def / lambda value at module and class level of ``src``.  Returns the list of problems."""
+    import warnings
+
+    with warnings.catch_warnings():
+        warnings.simplefilter("ignore")
+        tree = ast.parse(src)
+        code = compile(src, "<c02rich>", "exec", dont_inherit=True)
+    future = any(isinstance(s, ast.ImportFrom) and s.module == "__future__" and any(a.name == "annotations" for a in s.names)
+                 for s in tree.body)
+    # CPython's executed view.  (1) the definitions themselves, statement by statement, every free name (and every import) bound
+    # to an operand that accepts everything; (2) where a statement cannot be executed that way (TypeError in a default made of
+    # constants, unbounded integer arithmetic): its skeleton - same parameter lists, every default replaced by None (lambdas by
+    # their skeleton), annotations dropped - so that inspect.signature still confirms names / order / kinds / has-default.
+    import builtins
+
+    def fresh_ns() -> dict:
+        ns = {"__name__": "vfrich", "__builtins__": {**vars(builtins), "__import__": lambda *a, **k: _Universal()}}
+        for n in ast.walk(tree):
+            if isinstance(n, ast.Name):
+                ns.setdefault(n.id, _Universal())
+        ns["staticmethod"], ns["classmethod"] = staticmethod, classmethod
+        return ns
+
+    flags = __import__("__future__").annotations.compiler_flag if future else 0
+    ns, skel = fresh_ns(), fresh_ns()
+    executed: set[str] = set()
+    for st in tree.body:
+        if isinstance(st, (ast.FunctionDef, ast.AsyncFunctionDef, ast.ClassDef)):
+            name = st.name
+        elif isinstance(st, ast.Assign) and len(st.targets) == 1 and isinstance(st.targets[0], ast.Name):
+            name = st.targets[0].id
+        else:
+            name = None
+        with warnings.catch_warnings():
+            warnings.simplefilter("ignore")
+            if risky_to_execute(st):
+                rec.count("rich_statement_not_executed:unbounded_integer_arithmetic")
+            else:
+                try:
+                    exec(compile(ast.Module([st], []), "<c02rich>", "exec", flags=flags, dont_inherit=True), ns)  # noqa: S102
+                    if name:
+                        executed.add(name)
+                except Exception as exc:  # noqa: BLE001
+                    rec.count(f"rich_statement_not_executable:{type(exc).__name__}")
+            if name and name not in executed:
+                twin = ast.fix_missing_locations(_Skeleton().visit(_c3().clone(st)))
+                exec(compile(ast.Module([twin], []), "<c02rich-skeleton>", "exec", dont_inherit=True), skel)  # noqa: S102
+                ns[name] = skel[name]
+                rec.count("rich_statement_confirmed_on_skeleton")
+    mod = visit_source(src, "m")
+
+    def lookup(pyobj, name):  # noqa: ANN001, ANN202
+        if pyobj is None:
+            return None
+        py = pyobj.get(name) if isinstance(pyobj, dict) else vars(pyobj).get(name)
+        return getattr(py, "__func__", py)
+
+    out: list = []
+
+    def walk(body, gobj, pyobj, prefix, real=None):  # noqa: ANN001, ANN202
+        top = real is None
+        for st in body:
+            if top:
+                real = getattr(st, "name", None) in executed or \
+                    (isinstance(st, ast.Assign) and isinstance(st.targets[0], ast.Name) and st.targets[0].id in executed)
+            if isinstance(st, (ast.FunctionDef, ast.AsyncFunctionDef)):
+                label = prefix + st.name
+                g = gobj.members.get(st.name)
+                if g is None or not g.is_function:
+                    out.append((f"{label}: not reported as a function", g and g.kind.value, "function", None))
+                    continue
+                py = lookup(pyobj, st.name)
+                sig = inspect.signature(py) if py is not None else None
+                rec.count("rich_signatures_compared")
+                rec.count("rich_signatures_confirmed_by_inspect" if real else "rich_signatures_confirmed_by_inspect_on_skeleton")
+                if getattr(st, "type_params", None):
+                    rec.count("rich_type_param_signatures_compared")
+                ref = ref_params(st.args)
+                compare_rich_params(rec, out, list(g.parameters), ref, sig, future, domain, label)
+                if isinstance(st, ast.AsyncFunctionDef) != ("async" in g.labels):
+                    out.append((f"{label}: 'async' label", sorted(g.labels), isinstance(st, ast.AsyncFunctionDef), None))
+                if st.returns is None:
+                    if g.returns is not None:
+                        out.append((f"{label}: return annotation reported, the definition has none", str(g.returns), None, None))
+                else:
+                    res = judge_rich_expr(rec, g.returns, st.returns, not future, domain, f"{label}: return annotation",
+                                          "rich_returns_parse_back_equal")
+                    if res:
+                        out.append(res)
+                # lambdas used as defaults: structure of ExprLambda.parameters against CPython's lambda
+                if [p.name for p in g.parameters] != [r[0] for r in ref]:
+                    continue
+                for gp, (name, _k, dnode, _a) in zip(g.parameters, ref):
+                    if isinstance(dnode, ast.Lambda) and gp.default is not None:
+                        lam_py = None
+                        if sig is not None and callable(sig.parameters[name].default):
+                            lam_py = sig.parameters[name].default
+                        compare_rich_lambda(rec, out, gp.default, dnode, lam_py, future, domain, f"{label}: lambda default of {name}")
+            elif isinstance(st, ast.ClassDef):
+                g = gobj.members.get(st.name)
+                if g is None or not g.is_class:
+                    out.append((f"{prefix}{st.name}: not reported as a class", g and g.kind.value, "class", None))
+                    continue
+                walk(st.body, g, lookup(pyobj, st.name), prefix + st.name + ".", real)
+            elif isinstance(st, ast.Assign) and len(st.targets) == 1 and isinstance(st.targets[0], ast.Name) and isinstance(st.value, ast.Lambda):
+                name = st.targets[0].id
+                g = gobj.members.get(name)
+                if g is None or not g.is_attribute:
+                    out.append((f"{prefix}{name}: lambda value not reported as an attribute", g and g.kind.value, "attribute", None))
+                    continue
+                res = judge_rich_expr(rec, g.value, st.value, False, domain, f"{prefix}{name}: lambda value", "rich_lambda_values_parse_back_equal")
+                if res:
+                    out.append(res)
+                elif g.value is not None:
+                    compare_rich_lambda(rec, out, g.value, st.value, lookup(pyobj, name), future, domain, f"{prefix}{name}: lambda value")
+
+    walk(tree.body, mod, ns, "")
+    return out
+
+
+def compare_rich_lambda(rec, out: list, stored, node: ast.Lambda, lam_py, future, domain, label) -> None:  # noqa: ANN001
+    from _griffe.expressions import ExprLambda
+
+    if not isinstance(stored, ExprLambda):
+        out.append((f"{label}: lambda not stored as ExprLambda", repr(stored)[:200], "ExprLambda", None))
+        return
+    sig = None
+    if lam_py is not None and getattr(lam_py, "__name__", "") == "<lambda>":
+        sig = inspect.signature(lam_py)
+    rec.count("rich_lambda_structures_compared")
+    if sig is not None:
+        rec.count("rich_lambda_structures_confirmed_by_inspect")  # (of the lambda itself or of its skeleton)
+    compare_rich_params(rec, out, list(stored.parameters), ref_params(node.args), sig, future, domain, label, lambda_form=True)
+
+
+def report_rich(rec, case: dict, problems: list, nontrivial: bool, tags=()) -> None:  # noqa: ANN001
+    """One refutation per mechanism (unlisted ones first), so that a listed finding never hides another problem of the case."""
+    if not problems:
+        rec.ok(case, nontrivial=nontrivial, tags=tags)
+        return
+    seen = set()
+    for what, observed, expected, finding in sorted(problems, key=lambda p: p[3] is not None):
+        if finding in seen:
+            continue
+        seen.add(finding)
+        rec.fail(case, what, observed=observed, expected=expected, finding=finding, nontrivial=nontrivial, tags=tags,
+                 tried=[AWAIT_FINDING])
+
+
+def run_rich_case(rec, gen: RichGen, domain: str) -> None:  # noqa: ANN001
+    src, nontrivial = gen.module()
+    case = {"source": src, "rich": True, "domain": domain}
+    rec.count(f"rich_{domain}_domain_cases")
+    try:
+        with case_watchdog(60):
+            problems = judge_rich_source(rec, src, domain)
+    except Exception as exc:  # noqa: BLE001
+        rec.fail_exc(case, "exception while extracting / comparing a rich signature", exc, nontrivial=nontrivial)
+        return
+    report_rich(rec, case, problems, nontrivial, tags=(f"rich:{domain}",))
+
+
 # -- shards ----------------------------------------------------------------------------------
 def run_shard(spec: dict, rec) -> None:  # noqa: ANN001
     install_contract(rec)
@@ -508,6 +1249,10 @@ def run_shard(spec: dict, rec) -> None:  # noqa: ANN001
     elif kind == "properties":
         for _ in range(spec["count"]):
             run_property_case(rec, rng)
+    elif kind == "rich":
+        gen = RichGen(rng, spec["domain"], spec["depth"])
+        for _ in range(spec["count"]):
+            run_rich_case(rec, gen, spec["domain"])
     elif kind == "mixed":
         small = [pl for n in range(4) for pl in param_lists(n)]
         for _ in range(spec["count"]):
@@ -526,6 +1271,9 @@ def run_replay(inp: dict, rec) -> None:  # noqa: ANN001
     """Replay a literal source: every function CPython defines at module/class level is compared."""
     install_contract(rec)
     src = inp["source"]
+    if inp.get("rich"):
+        report_rich(rec, inp, judge_rich_source(rec, src, inp.get("domain", "hostile")), True)
+        return
     ns: dict = {"__name__": "vfreplay"}
     exec(compile(src, "<c02replay>", "exec"), ns)  # noqa: S102
     mod = visit_source(src, "m")
@@ -570,3 +1318,18 @@ def run_replay(inp: dict, rec) -> None:  # noqa: ANN001
         rec.fail(inp, problems[0][0], observed=problems[0][1], expected=problems[0][2])
     else:
         rec.ok(inp, nontrivial=True)
+
+
+def run_pinned(findings: list[dict], rec) -> dict:  # noqa: ANN001
+    from vf.core.rec import Recorder, pinned_result
+
+    out = {}
+    for f in findings:
+        sub = Recorder(PROP, {})
+        try:
+            run_replay(dict(f["witness"]), sub)
+        except Exception as exc:  # noqa: BLE001
+            out[f["id"]] = {"reproduced": False, "detail": f"replay raised {exc!r}"}
+            continue
+        out[f["id"]] = pinned_result(sub, f)
+    return out
